@@ -347,9 +347,10 @@ Definition step (V : variant) (s : state) (o : op) : state * outcome :=
       | Some _, _ => (s, Nul)
       | None, None => (s, Nul)
       | None, Some m =>
-          (* memory::slice: bytes = (count == -1 ? length() - offset : count) *)
+          (* memory::slice: "Cannot have a negative offset"; bytes = (count == -1 ? length() - offset : count) *)
           let bytes := if cnt =? -1 then r_sz m - off else cnt in
-          if bytes <? 0 then (s, Err)
+          if off <? 0 then (s, Err)
+          else if bytes <? 0 then (s, Err)
           else if negb (off + cnt <=? r_sz m) then (s, Err)
           (* modeMemory_t::slice: offset + offset_ >= 0 *)
           else if r_off m + off <? 0 then (s, Err)
